@@ -18,10 +18,12 @@ package main
 
 import (
 	"bytes"
+	stdjson "encoding/json"
 	"errors"
 	"fmt"
 	"io"
 	"math/rand/v2"
+	"os"
 	"reflect"
 	"sort"
 	"strconv"
@@ -605,6 +607,9 @@ func c05Detail(in []byte, plan c05Plan, optSel int, script []byte, i int, ref, g
 	if plan.kind == "chunks" && plan.fixed == 0 {
 		d["chunks"] = fmt.Sprint(plan.chunks)
 	}
+	// everything --replay needs to re-run exactly this case
+	d["replay"] = map[string]any{"kind": plan.kind, "name": plan.name, "fixed": plan.fixed, "chunks": plan.chunks, "empty_mode": plan.emptyMode,
+		"eof_with_data": plan.eofWithData, "fault_at": plan.faultAt, "seed": plan.seed, "script": string(script), "options": optSel}
 	if i >= 0 && i < len(ref) {
 		d["whole_slice"] = ref[i].String()
 	}
@@ -669,6 +674,8 @@ func (e *c05Env) check(in []byte, plan c05Plan, optSel int, script []byte, ref *
 		}
 	}
 	d := c05Detail(in, plan, optSel, script, i, want, got.recs)
+	d["replay"].(map[string]any)["ptr_every"] = ptrEvery
+	d["replay"].(map[string]any)["probe"] = probe
 	if min := e.minimiseCase(kind, op, in, plan, optSel, script, ptrEvery); min != nil {
 		d["minimised"] = min
 	}
@@ -2063,8 +2070,72 @@ func (e *c05Env) phaseCorrespondence() {
 
 // ---------------------------------------------------------------------------------------------
 
+// c05Replay re-runs the single case recorded in a replay file written by Violate.
+func (e *c05Env) replay(path string) {
+	c := e.c
+	raw, err := os.ReadFile(path)
+	if err != nil {
+		fail("replay: %v", err)
+	}
+	var f struct {
+		Violation struct {
+			Kind   string         `json:"kind"`
+			Op     string         `json:"op"`
+			Input  string         `json:"input_hex"`
+			Detail map[string]any `json:"detail"`
+		} `json:"violation"`
+	}
+	if err := stdjson.Unmarshal(raw, &f); err != nil {
+		fail("replay: %v", err)
+	}
+	in := unhx(f.Violation.Input)
+	rp, _ := f.Violation.Detail["replay"].(map[string]any)
+	num := func(k string) int {
+		v, _ := rp[k].(float64)
+		return int(v)
+	}
+	str := func(k string) string {
+		v, _ := rp[k].(string)
+		return v
+	}
+	c.Case("replay|"+f.Violation.Input, true)
+	if rp == nil || strings.HasPrefix(f.Violation.Op, "Unmarshal") || strings.HasPrefix(f.Violation.Op, "Value.") {
+		// json-level cases carry no plan: re-run the input through every plan
+		r := c05Rng(c, 9, 0)
+		for optSel := 0; optSel < 4; optSel++ {
+			e.unmarshalCase(in, r, optSel)
+		}
+		e.decodeStreamCase(in, r)
+		return
+	}
+	plan := c05Plan{kind: str("kind"), name: str("name"), fixed: num("fixed"), emptyMode: num("empty_mode"), faultAt: num("fault_at")}
+	plan.eofWithData, _ = rp["eof_with_data"].(bool)
+	if sd, ok := rp["seed"].(float64); ok {
+		plan.seed = uint64(sd)
+	}
+	if cs, ok := rp["chunks"].([]any); ok {
+		for _, x := range cs {
+			if v, ok := x.(float64); ok {
+				plan.chunks = append(plan.chunks, int(v))
+			}
+		}
+	}
+	script := []byte(str("script"))
+	ptrEvery, _ := rp["ptr_every"].(bool)
+	ref, _ := c05RunRef(c, in, num("options"), script, nil, 0)
+	if !e.refOK(in, num("options"), script, ref) {
+		return
+	}
+	e.check(in, plan, num("options"), script, ref, ptrEvery, num("probe"))
+	c.Note("replayed %s %s on %d input bytes with reader %s, script %q", f.Violation.Kind, f.Violation.Op, len(in), plan.String(), trunc(string(script), 60))
+}
+
 func runC05(c *Ctx) {
 	e := &c05Env{c: c, minimise: map[string]int{}}
+	if c.ReplayPath != "" {
+		e.replay(c.ReplayPath)
+		return
+	}
 	start := time.Now()
 	phase := func(name string, f func()) {
 		t0 := time.Now()
